@@ -5,8 +5,8 @@ package main
 
 import (
 	"bufio"
-	"context"
 	"bytes"
+	"context"
 	"crypto/sha256"
 	"encoding/hex"
 	"encoding/json"
@@ -94,18 +94,18 @@ type violation struct {
 }
 
 type shardResult struct {
-	Evaluations  int64             `json:"evaluations"`
-	Nontrivial   []string          `json:"nontrivial"` // hashes of distinct non-trivial cases
-	Samples      []any             `json:"samples"`
-	Counters     map[string]int64  `json:"counters"`
+	Evaluations  int64               `json:"evaluations"`
+	Nontrivial   []string            `json:"nontrivial"` // hashes of distinct non-trivial cases
+	Samples      []any               `json:"samples"`
+	Counters     map[string]int64    `json:"counters"`
 	Sets         map[string][]string `json:"sets"` // named sets of observed things (states, kinds, ...)
-	Violations   []violation       `json:"violations"`
-	Inconclusive int64             `json:"inconclusive"`
-	InconReasons map[string]int64  `json:"incon_reasons"`
-	Masked       int64             `json:"masked"`
-	Exhaustive   map[string]bool   `json:"exhaustive"`
-	Notes        []string          `json:"notes"`
-	Done         bool              `json:"done"`
+	Violations   []violation         `json:"violations"`
+	Inconclusive int64               `json:"inconclusive"`
+	InconReasons map[string]int64    `json:"incon_reasons"`
+	Masked       int64               `json:"masked"`
+	Exhaustive   map[string]bool     `json:"exhaustive"`
+	Notes        []string            `json:"notes"`
+	Done         bool                `json:"done"`
 }
 
 type ctx struct {
